@@ -63,6 +63,26 @@ Proof. vm_compute. reflexivity. Qed.
 Example ex_by_height : map id (by_height_range ex_store 1 (Some 2)) = [2; 5; 3; 7; 6; 4]%N.
 Proof. vm_compute. reflexivity. Qed.
 
+(* refutation 0: when height + count - 1 does not fit a 64-bit int the sum wraps (Go int arithmetic) and the window is lost:
+   height 1, count 2^63-1 -> end wraps to -2^63 -> nothing, although the Longest header 2 has height 1;
+   height -2^63, count -5 (an EMPTY window) -> end wraps to 2^63-6 -> every stored row *)
+Theorem by_height_overflow_refuted :
+  exists s h c r, Valid s /\ - two63 <= h < two63 /\ - two63 <= c < two63 /\
+    In r s /\ st r = Longest /\ h <= height r <= h + c - 1 /\ ~ In r (by_height_range s h (Some c)).
+Proof.
+  assert (E: exists r, by_hash ex_store 2 = Some r /\ st r = Longest /\ height r = 1).
+  { eexists. split; [vm_compute; reflexivity| split; reflexivity]. }
+  destruct E as (r & Er & HL & Hh).
+  exists ex_store, 1, (two63 - 1), r. split; [exact ex_valid|].
+  split; [unfold two63; lia|]. split; [unfold two63; lia|].
+  split; [apply (by_hash_in _ _ _ Er)|]. split; [exact HL|]. split; [rewrite Hh; unfold two63; lia|].
+  intro Hin. apply by_height_char in Hin. destruct Hin as [_ [_ Hle]]. rewrite Hh in Hle.
+  revert Hle. vm_compute. intro H. apply H. reflexivity.
+Qed.
+
+Example by_height_overflow_negative : map id (by_height_range ex_store (- two63) (Some (-5))) = [1; 2; 5; 3; 7; 6; 4]%N.
+Proof. vm_compute. reflexivity. Qed.
+
 (* two DIFFERENT headers of equal height: the same-chain error (before the fix ed2f6a2: the empty list) *)
 Example ancestors_equal_height : ancestors ex_store 2 3 = AErr ENotSame /\ ancestors_before_fix ex_store 2 3 = AOk [].
 Proof. vm_compute. split; reflexivity. Qed.
